@@ -69,6 +69,8 @@ def gen_base(rng, name):
             # a value of the column (so that equality is hit), or a threshold strictly between two values
             conds.append([cr, rng.choice(colv) + rng.choice([0.0, 0.0, 0.0, 0.5, -0.5, 0.25, -0.75])])
     c["tf"] = {"cls": name, "params": {}, "kind": 6, "ignore_missing": rng.random() < 0.5}
+    if name in SETS:
+        c["tf"]["container"] = rng.choice(["list", "list", "tuple", "set", "frozenset", "ndarray"])
     return c, conds
 
 
